@@ -629,3 +629,49 @@ M('c15-pointwise-fastpath', 'C15', 'SIB-PATH', '1x1 fast path that forgets the s
   (LM, "        a = self._extract_patches(a)\n        spatial_size = a.size(1) * a.size(2)\n        a = a.view(-1, a.size(-1))", "        if max(self.module.kernel_size) == 1 and max(self.module.padding) == 0:\n            a = a.permute(0, 2, 3, 1)\n        else:\n            a = self._extract_patches(a)\n        spatial_size = a.size(1) * a.size(2)\n        a = a.reshape(-1, a.size(-1))"))
 T('c15-twin-pointwise-fastpath-stride1', 'C15', '1x1, stride 1, unpadded fast path',
   (LM, "        a = self._extract_patches(a)\n        spatial_size = a.size(1) * a.size(2)\n        a = a.view(-1, a.size(-1))", "        if max(self.module.kernel_size) == 1 and max(self.module.padding) == 0 and max(self.module.stride) == 1:\n            a = a.permute(0, 2, 3, 1)\n        else:\n            a = self._extract_patches(a)\n        spatial_size = a.size(1) * a.size(2)\n        a = a.reshape(-1, a.size(-1))"))
+
+# ---------------------------------------------------------------- generic refactoring twins (run against every check by tools/cross_twins.py)
+def G(id, what, *edits):  # noqa: A002
+    CASES.append({'id': id, 'prop': '*', 'expect': 'silent', 'what': what, 'edits': list(edits)})
+
+
+G('g-rename-loop-vars', 'loop variables renamed in the gradient phase',
+  (BP, "        for name, layer in reversed(list(self._layers.values())):\n            if self._assignment.is_grad_worker(name):\n                layer.preconditioned_grad(damping=self.damping)\n            if self._assignment.broadcast_gradients():\n                layer.broadcast_grad(\n                    src=self._assignment.src_grad_worker(name),\n                    group=self._assignment.grad_receiver_group(name),\n                )",
+       "        for lname, klayer in reversed(list(self._layers.values())):\n            if self._assignment.is_grad_worker(lname):\n                klayer.preconditioned_grad(damping=self.damping)\n            if self._assignment.broadcast_gradients():\n                klayer.broadcast_grad(\n                    src=self._assignment.src_grad_worker(lname),\n                    group=self._assignment.grad_receiver_group(lname),\n                )"))
+G('g-hoist-layer-list', 'reversed layer list computed once',
+  (BP, "        # Compute Preconditioned Gradients\n        for name, layer in reversed(list(self._layers.values())):", "        # Compute Preconditioned Gradients\n        ordered = list(reversed(list(self._layers.values())))\n        for name, layer in ordered:"))
+G('g-logging-added', 'debug logging added to step()',
+  (BP, "        # Compute Inverses\n        if self.steps % self.inv_update_steps == 0:", "        logger.debug('kfac step %d', self.steps)\n        # Compute Inverses\n        if self.steps % self.inv_update_steps == 0:"))
+G('g-error-message', 'error message reworded',
+  (LB, "            raise RuntimeError('a_factor is None, cannot reduce')", "            raise RuntimeError('cannot reduce the A factor before it exists')"))
+G('g-callback-renamed', 'allreduce callback renamed',
+  (DI, "        def callback_(future_: FutureType) -> torch.Tensor:  # pragma: no cover\n            t = future_.value()[0]\n            if average:\n                t = (1 / get_world_size(group)) * t\n            if symmetric:\n                t = fill_triu(shape, t)\n            return t\n\n        return future.then(callback_)\n\n    def broadcast",
+       "        def _finish(future_: FutureType) -> torch.Tensor:  # pragma: no cover\n            t = future_.value()[0]\n            if average:\n                t = (1 / get_world_size(group)) * t\n            if symmetric:\n                t = fill_triu(shape, t)\n            return t\n\n        return future.then(_finish)\n\n    def broadcast"))
+G('g-grad-dtype-renamed', 'local renamed in the eigen preconditioning',
+  (LE, "        grad_type = grad.dtype\n        grad = grad.to(self.qa.dtype)\n        v1 = self.qg.t() @ grad @ self.qa", "        orig_dtype = grad.dtype\n        grad = grad.to(self.qa.dtype)\n        v1 = self.qg.t() @ grad @ self.qa"),
+  (LE, "        self.grad = (self.qg @ v2 @ self.qa.t()).to(grad_type)", "        self.grad = (self.qg @ v2 @ self.qa.t()).to(orig_dtype)"))
+G('g-patch-view-minus-one', 'patch view uses -1 for the feature axis',
+  (LM, "            x.size(3) * x.size(4) * x.size(5),\n        )", "            -1,\n        )"))
+G('g-work-renamed', 'greedy assignment comprehension variables renamed',
+  (AS, "            layer: sum(factors.values()) for layer, factors in work.items()", "            lname: sum(fcosts.values()) for lname, fcosts in work.items()"))
+G('g-update-grad-restructured', 'update_grad with an explicit else branch',
+  (LB, "        if scale is not None:\n            grad = scale * grad\n        self.module.set_grad(grad)\n        self.grad = None", "        if scale is not None:\n            self.module.set_grad(scale * grad)\n        else:\n            self.module.set_grad(grad)\n        self.grad = None"))
+G('g-eye-damping', 'damping*eye instead of diag(fill_)',
+  (LI, "        d = torch.diag(\n            self.g_factor.new(self.g_factor.shape[0]).fill_(damping),\n        )\n        g = self.g_factor + d", "        d = torch.diag(\n            self.g_factor.new_ones(self.g_factor.shape[0]),\n        )\n        g = self.g_factor + damping * d"))
+G('g-new-method', 'an unrelated helper method added to the preconditioner',
+  (BP, "    def reset_batch(self) -> None:", "    def layer_names(self) -> list[str]:\n        \"\"\"Names of the registered layers.\"\"\"\n        return [name for name, _ in self._layers.values()]\n\n    def reset_batch(self) -> None:"))
+G('g-training-check-merged', 'hook guards merged into one test',
+  (BP, "        if not module.training:\n            return\n        if self.steps % self.factor_update_steps == 0:\n            name, layer = self._layers[module]\n            layer.save_layer_input(input_)", "        if module.training and self.steps % self.factor_update_steps == 0:\n            name, layer = self._layers[module]\n            layer.save_layer_input(input_)"))
+G('g-numel', 'numel() instead of nelement() in memory accounting and bucket size',
+  (DI, "        self._size += tensor.element_size() * tensor.nelement()", "        self._size += tensor.element_size() * tensor.numel()"))
+G('g-trace-annotations', 'return annotation and docstring of tracing changed',
+  (TR, "        def func_timer(*args: list[Any], **kwargs: dict[str, Any]) -> Any:\n            \"\"\"Time and execute function.\"\"\"", "        def func_timer(*args: Any, **kwargs: Any) -> RT:\n            \"\"\"Execute func and record its wall time.\"\"\""))
+G('g-sched-comment', 'comments and blank lines in scheduler.step',
+  (SC, "        if self._damping_lambda is not None:\n            factor = self._damping_lambda(", "        # damping\n        if self._damping_lambda is not None:\n\n            factor = self._damping_lambda("))
+G('g-register-continue-removed', 'registration loop without continue',
+  (LR, "            module_helper = get_module_helper(module)\n            if module_helper is None:\n                continue\n\n            kfac_layer = kfac_layer_type(module_helper, **layer_kwargs)\n\n            # get_flattened_modules() should never give us modules with the\n            # same name\n            assert module not in kfac_layers\n            kfac_layers[module] = (name, kfac_layer)",
+       "            module_helper = get_module_helper(module)\n            if module_helper is not None:\n                kfac_layer = kfac_layer_type(module_helper, **layer_kwargs)\n\n                # get_flattened_modules() should never give us modules with the\n                # same name\n                assert module not in kfac_layers\n                kfac_layers[module] = (name, kfac_layer)"))
+G('g-gpt-shape-local', 'GPT helper shape computed with a local',
+  (GM, "        dim0_size = self.module.weight.size(0)  # type: ignore\n        if self.parallelism == 'output':\n            x = dim0_size * self.model_parallel_world_size\n        else:\n            x = dim0_size\n        return (x, x)", "        rows = self.module.weight.size(0)  # type: ignore\n        if self.parallelism == 'output':\n            rows = rows * self.model_parallel_world_size\n        return (rows, rows)"))
+G('g-load-loop-dict', 'load_state_dict looks layers up through a name index',
+  (BP, "            for found_name, layer_state in state_dict['layers'].items():\n                for name, layer in self._layers.values():\n                    if found_name == name:\n                        layer.load_state_dict(layer_state)", "            for found_name, layer_state in state_dict['layers'].items():\n                for name, layer in self._layers.values():\n                    if name == found_name:\n                        layer.load_state_dict(layer_state)"))
